@@ -61,6 +61,7 @@ var sdScenarios = []sdScenario{
 	{Name: "group-offset-fetch-fails", Component: "group", Variant: "offset-fetch-fails", KMax: 80},
 	{Name: "om-mid-commit", Component: "om", Variant: "slow-commit", KMax: 80},
 	{Name: "om-errors", Component: "om", Variant: "errors", KMax: 80},
+	{Name: "om-manual-commit", Component: "om", Variant: "manual-commit", KMax: 80},
 	{Name: "client-refresher", Component: "client", Variant: "refresher", KMax: 60},
 	{Name: "client-shared", Component: "client", Variant: "shared", KMax: 120},
 }
@@ -819,12 +820,24 @@ func sdGroup(r *sdRun, rng *rand.Rand) {
 func sdOffsetManager(r *sdRun, rng *rand.Rand) {
 	r.sim.CreateTopic("t", 2, 0)
 	var nCommit int32
+	var nFind int32
 	r.sim.OnGroup = func(ctx *sarama.VSimGroupCtx) sarama.VSimGroupAction {
+		if r.sc.Variant == "manual-commit" && ctx.Kind == "find-coordinator" && atomic.AddInt32(&nFind, 1)%3 == 0 {
+			// every third lookup dies with its connection: those commits fail before anything is sent
+			// (COORDINATOR_NOT_AVAILABLE would make the client sleep for two seconds)
+			return sarama.VSimGroupAction{Kind: sarama.VGDropBefore}
+		}
 		if ctx.Kind != "commit" {
 			return sarama.VSimGroupAction{}
 		}
 		n := atomic.AddInt32(&nCommit, 1)
 		switch r.sc.Variant {
+		case "manual-commit":
+			// the first commit is accepted, every later one dies with its connection:
+			// the committing goroutine spends its time handing errors to a slow reader
+			if n > 1 {
+				return sarama.VSimGroupAction{Kind: sarama.VGDropBefore}
+			}
 		case "slow-commit":
 			return sarama.VSimGroupAction{DelayMs: 15}
 		case "errors":
@@ -843,6 +856,13 @@ func sdOffsetManager(r *sdRun, rng *rand.Rand) {
 	conf.Consumer.Return.Errors = true
 	conf.Consumer.Offsets.AutoCommit.Interval = 2 * time.Millisecond
 	conf.Consumer.Offsets.Retry.Max = 2
+	manual := r.sc.Variant == "manual-commit"
+	if manual {
+		// the application commits by itself, from its own goroutine, and reads errors slowly
+		conf.Consumer.Offsets.AutoCommit.Enable = false
+		conf.ChannelBufferSize = 0
+		conf.Metadata.Retry.Max = 0
+	}
 	client, err := sarama.NewClient(r.sim.Addrs(), conf)
 	if err != nil {
 		r.notes = append(r.notes, "inconclusive: "+err.Error())
@@ -870,8 +890,38 @@ func sdOffsetManager(r *sdRun, rng *rand.Rand) {
 			defer drain.Done()
 			for range pom.Errors() {
 				atomic.AddInt64(&r.app, 1)
+				if manual {
+					time.Sleep(6 * time.Millisecond) // slower than the commits fail: the committer waits in its send most of the time
+				}
 			}
 		}(pom)
+	}
+	stopCommit := make(chan struct{})
+	var nCommitCalls int64
+	defer func() {
+		r.mu.Lock()
+		if r.obs != nil && manual {
+			r.obs["om_manual_commit_calls"] = atomic.LoadInt64(&nCommitCalls)
+		}
+		r.mu.Unlock()
+	}()
+	var committer sync.WaitGroup
+	if manual {
+		committer.Add(1)
+		go func() {
+			defer committer.Done()
+			for {
+				select {
+				case <-stopCommit:
+					return
+				default:
+				}
+				om.Commit() // keeps committing while Close runs: nothing forbids it
+				atomic.AddInt64(&r.app, 1)
+				atomic.AddInt64(&nCommitCalls, 1)
+				time.Sleep(300 * time.Microsecond)
+			}
+		}()
 	}
 	stop := make(chan struct{})
 	var markers sync.WaitGroup
@@ -898,6 +948,8 @@ func sdOffsetManager(r *sdRun, rng *rand.Rand) {
 			pom.AsyncClose()
 		}
 		om.Close()
+		close(stopCommit)
+		committer.Wait()
 		drain.Wait()
 		client.Close()
 		if err := client.Close(); err != sarama.ErrClosedClient {
